@@ -1,5 +1,6 @@
 import RawPanelVerif.Driver.Mono
 import RawPanelVerif.Driver.Strip
+import RawPanelVerif.Driver.Text
 /-!
 Driver: reads records `cmd arg… | implementation-output` on stdin, prints one answer line per record:
 `EQ|NE  H1|H0:<clause>  [model output when NE]`.  State is per family and persists across lines.
@@ -22,6 +23,7 @@ def stepLine (st : DriverSt) (line : String) : DriverSt × String :=
     let (m, out) := Driver.Mono.step st.mono cmd args impl
     ({ st with mono := m }, out)
   else if cmd.startsWith "strip." then (st, Driver.Strip.step cmd args impl)
+  else if cmd.startsWith "text." then (st, Driver.Text.step cmd args impl)
   else (st, "ERR unknown-family")
 
 partial def loop (h : IO.FS.Stream) (out : IO.FS.Stream) (st : DriverSt) : IO Unit := do
